@@ -18,7 +18,9 @@
 EXTENDS Integers, FiniteSets, Sequences, TLC
 
 Views(c) == 0 .. c.views - 1
-Segs(c) == c.minSeg .. c.maxSeg
+\* (clients written before asymmetric ranges were added pass records without minSeg: symmetric range)
+MinSegOf(c) == IF "minSeg" \in DOMAIN c THEN c.minSeg ELSE -c.maxSeg
+Segs(c) == MinSegOf(c) .. c.maxSeg
 Tofs(c) == c.minTof .. c.maxTof
 AllVS(c) == Views(c) \X Segs(c)
 AllData(c) == AllVS(c) \X Tofs(c)          \* every (<<view, segment>>, TOF bin) of the data
@@ -29,11 +31,11 @@ AllData(c) == AllVS(c) \X Tofs(c)          \* every (<<view, segment>>, TOF bin)
 (* negative segment)".  View v is phi = v*180/views degrees, so 180 degrees = views (= view 0) *)
 (* and 90 degrees = views/2.  "The symmetry in phi is automatically reduced [...] when the    *)
 (* number of views is not a multiple of 4."                                                   *)
-Legal(c) == /\ c.views >= 1 /\ c.minSeg <= 0 /\ c.maxSeg >= 0
+Legal(c) == /\ c.views >= 1 /\ MinSegOf(c) <= 0 /\ c.maxSeg >= 0
             /\ c.s90 => (c.s180 /\ c.views % 4 = 0)
             /\ c.s180 => c.views % 2 = 0
             \* the set of segments must be closed under the symmetries used: +-segment needs a symmetric range
-            /\ c.sseg => c.minSeg = -c.maxSeg
+            /\ c.sseg => MinSegOf(c) = -c.maxSeg
 
 ViewOrbit(c, v) ==
   LET V == c.views
@@ -113,7 +115,7 @@ Balanced(c, N) == EqualSizes([s \in 0 .. N - 1 |-> Cardinality(Processed(c, s, N
 RECURSIVE ImplCountSeg(_, _, _), ImplCountView(_, _, _, _)
 ImplCountSeg(c, v, sg) == IF sg > c.maxSeg THEN 0
                           ELSE (IF IsBasic(c, <<v, sg>>) THEN NumRelated(c, <<v, sg>>) ELSE 0) + ImplCountSeg(c, v, sg + 1)
-ImplCountView(c, s, N, v) == IF v > c.views - 1 THEN 0 ELSE ImplCountSeg(c, v, c.minSeg) + ImplCountView(c, s, N, v + N)
+ImplCountView(c, s, N, v) == IF v > c.views - 1 THEN 0 ELSE ImplCountSeg(c, v, MinSegOf(c)) + ImplCountView(c, s, N, v + N)
 ImplCount(c, s, N) == ImplCountView(c, s, N, s)
 
 (* ---------------------------------------------------------------------------------------- *)
